@@ -255,13 +255,19 @@ func importRejects(c *Ctx, mods ...string) {
 						rejects = true
 					}
 				}
-				if !rejects {
-					continue
+				if rejects {
+					n++
 				}
-				n++
 				e := w.Expand(w.ExprOf(iff.Cond), 2)
 				isParam := func(z *ir.Expr) bool {
-					return z.Op == "field" && len(z.Args) == 1 && z.Args[0].Op == "field" && z.Args[0].Name == "Params"
+					if z.Op == "field" && len(z.Args) == 1 && z.Args[0].Op == "field" && z.Args[0].Name == "Params" {
+						return true
+					}
+					// ... or a parameter in force, read from the store
+					if z.Op == "field" && len(z.Args) == 1 && z.Args[0].Any(func(y *ir.Expr) bool { return y.Op == "state" && strings.HasSuffix(y.Name, "ParamsKey") }) {
+						return true
+					}
+					return z.Op == "call" && strings.Contains(z.Name, ").GetParam")
 				}
 				isRecord := func(z *ir.Expr) bool {
 					return z.Op == "field" && len(z.Args) == 1 && z.Args[0].Op == "elem" && !z.Args[0].Any(func(y *ir.Expr) bool { return y.Op == "field" && y.Name == "Params" })
@@ -269,6 +275,15 @@ func importRejects(c *Ctx, mods ...string) {
 				op, x, y, okc := ir.Pred{E: e, Pol: true}.Cmp()
 				bad := okc && (x.Any(isParam) && y.Any(isRecord) || y.Any(isParam) && x.Any(isRecord))
 				_ = op
+				if !rejects {
+					// a branch that does not refuse but treats a record differently for how it compares with a parameter (skips a
+					// write "because the default applies anyway"): what was exported is not what is imported
+					if bad {
+						r.Bad("A7.import-accepts-export", fmt.Sprintf("%s|%s|branch", fn(f), w.InstrPos(iff)), pos(c, iff),
+							"the import treats no record differently for how it compares with a parameter (every exported record is written back as it was exported; parameters may have changed since it was written)", "branches on "+e.String())
+					}
+					continue
+				}
 				r.Require(!bad, "A7.import-accepts-export", fmt.Sprintf("%s|%s", fn(f), w.InstrPos(iff)), pos(c, iff),
 					"the import refuses no record for how it compares with a parameter of the document (governance may have changed the parameter after the record was written; the exported state of a running chain must import)", "rejects on "+e.String())
 			}
@@ -307,4 +322,59 @@ func onlyAbortsFrom(c *Ctx, f *ssa.Function, b *ssa.BasicBlock) bool {
 		return true
 	}
 	return visit(b)
+}
+
+// exportNotPaginated (A7.export-complete|unpaginated): genesis export does not collect its records through a helper built
+// for paged queries. The SDK's paginators (query.Paginate / FilteredPaginate / GenericFilteredPaginate, client.Paginate)
+// hand back one page — a hundred items by default — so an export routed through a "filtered list with no filter" helper
+// silently drops every record after the first page, while the exported id counter keeps the true value.
+func exportNotPaginated(c *Ctx, mods ...string) {
+	w, r := c.W, c.R
+	for _, m := range mods {
+		bad := ""
+		n := 0
+		for _, root := range w.Roots["EXPORTGEN:"+m] {
+			reach := w.Reachable([]*ssa.Function{root})
+			var fs []*ssa.Function
+			for f := range reach {
+				fs = append(fs, f)
+			}
+			sortFuncs(fs)
+			for _, f := range fs {
+				n++
+				for _, b := range f.Blocks {
+					for _, in := range b.Instrs {
+						call, ok := in.(ssa.CallInstruction)
+						if !ok {
+							continue
+						}
+						sc := call.Common().StaticCallee()
+						if sc == nil || sc.Pkg == nil {
+							continue
+						}
+						pp := sc.Pkg.Pkg.Path()
+						if (strings.HasSuffix(pp, "cosmos-sdk/types/query") || strings.HasSuffix(pp, "cosmos-sdk/client")) && strings.Contains(sc.Name(), "Paginate") && bad == "" {
+							bad = fn(f) + " calls " + sc.Name() + " at " + w.InstrPos(in) + " (" + pathStr(pathTo(reach, f)) + ")"
+						}
+					}
+				}
+			}
+		}
+		r.Require(bad == "", "A7.export-complete", m+"|unpaginated", "", "the genesis export of "+m+" reaches no paginator of the query layer (a page is not the whole section)", bad)
+		r.Floor("functions on the export route of "+m+" searched for paginators", n, 3)
+	}
+}
+
+// pathTo: the call chain recorded by Reachable from its roots to f.
+func pathTo(reach map[*ssa.Function]*ir.Edge, f *ssa.Function) []string {
+	var out []string
+	for i := 0; f != nil && i < 12; i++ {
+		out = append([]string{fn(f)}, out...)
+		e := reach[f]
+		if e == nil {
+			break
+		}
+		f = e.From
+	}
+	return out
 }
